@@ -202,6 +202,14 @@ func (sr *StreamReader) ReadBinary() ([]byte, error) {
 		return []byte{}, nil
 	}
 
+	return sr.readBytes(length)
+}
+
+// readBytes reads exactly length bytes. Requests for more than
+// bytesAllocThreshold bytes use a dynamically resizing buffer so that the
+// memory allocated is bounded by the data actually present in the stream
+// rather than by the length the stream declares.
+func (sr *StreamReader) readBytes(length int32) ([]byte, error) {
 	if length > bytesAllocThreshold {
 		var buf bytes.Buffer
 		_, err := io.CopyN(&buf, sr.reader, int64(length))
@@ -214,7 +222,7 @@ func (sr *StreamReader) ReadBinary() ([]byte, error) {
 	}
 
 	bs := make([]byte, length)
-	_, err = sr.read(bs)
+	_, err := sr.read(bs)
 	return bs, err
 }
 
